@@ -410,6 +410,12 @@ def is_repeat_with(ro: RepeatOperation, previous_st: Optional[Statement]):
             if (cast(Node, inc_dec.right).name != varname3 or
                 inc_dec.name != BinaryOperationNames.ADD.value):
                 return False
+            
+            # The step of a repeat-with loop is 1 (to) or -1 (down to)
+            step: Node = cast(Node, inc_dec.left)
+            if (not isinstance(step, ConstantValue) 
+                or step.name not in ('1', '-1')):
+                return False
     
             return True
     
